@@ -8,6 +8,7 @@
 #include <aws/common/assert.h>
 #include <aws/common/macros.h>
 #include <aws/common/mutex.h>
+#include <aws/common/zero.h>
 
 /*
  * Small Block Allocator
@@ -189,12 +190,14 @@ static void s_sba_clean_up(struct small_block_allocator *sba) {
             aws_array_list_get_at(&bin->active_pages, &page_addr, page_idx);
             struct page_header *page = page_addr;
             AWS_ASSERT(page->alloc_count == 0 && "Memory still allocated in aws_sba_allocator (bin)");
+            aws_secure_zero(page, sizeof(struct page_header));
             s_aligned_free(page);
         }
         if (bin->page_cursor) {
             void *page_addr = s_page_base(bin->page_cursor);
             struct page_header *page = page_addr;
             AWS_ASSERT(page->alloc_count == 0 && "Memory still allocated in aws_sba_allocator (page)");
+            aws_secure_zero(page, sizeof(struct page_header));
             s_aligned_free(page);
         }
 
@@ -368,8 +371,9 @@ static void s_sba_free_to_bin(struct sba_bin *bin, void *addr) {
                 break;
             }
         }
-        /* ensure that the page tag is erased, in case nearby memory is re-used */
-        page->tag = page->tag2 = 0;
+        /* ensure that the page tag is erased, in case nearby memory is re-used. Plain stores into memory that is
+         * freed right afterwards are dead to the optimizer (and were removed at -O2), so use the secure zero */
+        aws_secure_zero(page, sizeof(struct page_header));
         s_aligned_free(page);
         return;
     }
